@@ -366,7 +366,7 @@ class Walker(object):
         return sid, eff
 
 
-def content_segment(op, sid, kwargs, eff):
+def content_segment(op, sid, kwargs, eff, omit_detected_le=False):
     """All acceptable (header + content) byte strings for a content call.
 
     Raises Unencodable when the text cannot be encoded in its codec."""
@@ -416,7 +416,9 @@ def content_segment(op, sid, kwargs, eff):
 
         opts = dict(options, length=len(data))
 
-        if op != 'meta':
+        if op != 'meta' and not (omit_detected_le and le is None):
+            # (a foreign producer may leave out line_endings when the
+            # first line shows it)
             opts['line_endings'] = kind
 
         out.append(header_line(sid, opts) + data)
@@ -427,7 +429,7 @@ def content_segment(op, sid, kwargs, eff):
     return out
 
 
-def ref_segments(program):
+def ref_segments(program, omit_detected_le=False):
     """[[alternative bytes, ...], ...] -- one entry per section."""
     main = program.get('encoding', 'utf-8')
     w = Walker(main)
@@ -440,13 +442,15 @@ def ref_segments(program):
             segs.append([header_line(sid,
                                      {'encoding': kwargs.get('encoding')})])
         else:
-            segs.append(content_segment(op, sid, kwargs, eff))
+            segs.append(content_segment(op, sid, kwargs, eff,
+                                        omit_detected_le))
 
     return segs
 
 
-def ref_serialize(program):
-    return b''.join(alts[0] for alts in ref_segments(program))
+def ref_serialize(program, omit_detected_le=False):
+    return b''.join(alts[0]
+                    for alts in ref_segments(program, omit_detected_le))
 
 
 def match_segments(data, segs):
